@@ -16,6 +16,7 @@ import itertools
 import json
 import traceback
 
+from vp.core import reraise_harness_fault as core_reraise
 from vp.core import Check, Failure, enc, encb, load_corpus
 
 META = dict(
@@ -787,6 +788,7 @@ def judge(case: dict, obs: dict) -> list[Failure]:
     pub = {k: case[k] for k in ("text", "tags", "cmds", "expect")}
     if obs["exc"] is not None:
         e = obs["exc"]
+        core_reraise(e)
         return [Failure(f"analysis-raises:{obs['site']}:{type(e).__name__}", pub,
                         f"semantic analysis raised {type(e).__name__}: {e} (in {obs['site']}) for method {case['text']!r}")]
     fails = []
